@@ -107,7 +107,7 @@ enum LkState { OUT, DONE, CANCELLED };
 enum React { R_NONE, R_NEW_LOOKUP, R_CANCEL_OTHER };
 
 struct Lk {
-    int uid; uint16_t id; uint64_t t_req; int st; unsigned fail_cnt; std::set<int> fail_srv; int ncb; std::string domain;
+    int uid; uint16_t id; uint64_t t_req; int st; unsigned fail_cnt; unsigned maybe_fail; std::set<int> fail_srv; int ncb; std::string domain;
     int react; bool timed_out;
 };
 
@@ -158,7 +158,7 @@ struct Ctx {
 
     int request(const std::string &domain, int react = R_NONE) {
         int uid = int(lk.size());
-        lk.push_back(Lk{uid, 0, g_now, OUT, 0, {}, 0, domain, react, false});
+        lk.push_back(Lk{uid, 0, g_now, OUT, 0, 0, {}, 0, domain, react, false});
         Step saved = step;
         if (depth_cb == 0) step = S_API;
         Ctx *self = this;
@@ -274,7 +274,9 @@ struct Ctx {
         x.counts_fail = true;
         unsigned cnt = L.fail_cnt + 1;
         std::set<int> d = L.fail_srv; d.insert(srv);
-        if (cnt < unsigned(nsrv)) { x.k = X_NOCB; x.why = "server-failure-while-other-servers-pending"; }
+        // maybe_fail: malformed failure replies (short header, opcode != 0) that produced no callback; a client may have counted them
+        if (cnt + L.maybe_fail < unsigned(nsrv)) { x.k = X_NOCB; x.why = "server-failure-while-other-servers-pending"; }
+        else if (cnt < unsigned(nsrv)) { x.k = X_MAY_ALLFAIL; x.why = "server-failure-after-malformed-failure-replies"; }
         else if (d.size() >= size_t(nsrv)) { x.k = X_MUST; x.why = "server-failure-from-every-server"; }
         else { x.k = X_MAY_ALLFAIL; x.why = "server-failure-repeated-by-one-server"; }
         return x;
@@ -317,7 +319,10 @@ struct Ctx {
         for (auto &e : got) if (e.uid == x.uid) { ev = &e; break; }
         if (mine > 1) { /* already reported as once/callback/twice */ }
         switch (x.k) {
-            case X_NOCB: break;
+            case X_NOCB:
+                // fewer failure replies than servers, counting every datagram a client could have counted: the lookup has to go on waiting
+                if (ev && x.counts_fail) vh::viol("ignore/callback-on-" + x.why, show_ev(*ev) + vh::fmt(" (failure replies so far %u of %d servers)", lk[x.uid].fail_cnt + 1, nsrv) + ctx());
+                break;
             case X_MUST:
                 if (!ev) {
                     vh::viol(x.status == int(Status::kSuccess) ? "once/reply/well-formed-reply-not-delivered" : "once/reply/error-reply-not-delivered",
@@ -365,6 +370,7 @@ struct Ctx {
                 if (x.k == X_MAY_ALLFAIL) vh::counter(ev ? "dup_servfail_completed_lookup" : "dup_servfail_waited");
                 break;
         }
+        if (x.k == X_MAY_ERR && x.status == int(Status::kAllDnsFail) && x.uid >= 0 && !ev) lk[x.uid].maybe_fail++;
         if (x.counts_fail && x.uid >= 0 && !ev) { lk[x.uid].fail_cnt++; lk[x.uid].fail_srv.insert(x.srv); }
         if (x.k == X_NOCB && x.counts_fail) vh::counter("servfail_waits_for_other_servers");
         return out;
